@@ -18,10 +18,41 @@ def run(ctx):
     ctx.rule("C07.R2", "K4", "a request never keeps an EOFReader: without framing headers the body is LengthReader(0)")
     ctx.rule("C07.R3", "K1+K11", "LengthReader.read is bounded by the remaining length and accounts for what it returned; ChunkedReader stops advancing its parser at the end")
     ctx.rule("C07.R4", "K5", "Body refills only through its reader; it never touches the unreader or the socket")
+    ctx.rule("C07.R5", "K10", "buffers whose fill level is read through tell() are created empty (BytesIO(initial) leaves the position at 0)")
+    ctx.rule("C07.R6", "K11", "(= C06.R1-R3) the body readers obey the buffer discipline: whole-accumulator searches, exact residues, conserved split pairs")
     r1(ctx)
     r2(ctx)
     r3(ctx)
     r4(ctx)
+    r5(ctx)
+    from . import c06
+    from .c10 import _alias
+    for src in ("C06.R1", "C06.R2", "C06.R3"):
+        pass
+    a = _MultiAlias(ctx, {"C06.R1": "C07.R6", "C06.R2": "C07.R6", "C06.R3": "C07.R6"})
+    c06.r1(a)
+    c06.r23(a)
+
+
+def r5(ctx):
+    """the http layer reads the fill level of its buffers through tell(): a BytesIO created with initial
+    content has position 0, so the next write() overwrites it"""
+    repo = ctx.repo
+    n = 0
+    uses_tell = False
+    for mn in (BODY, MSG, "gunicorn.http.unreader"):
+        for f in repo.module(mn).all_funcs:
+            for c in walk_own(f.node):
+                if isinstance(c, ast.Call) and isinstance(c.func, ast.Attribute) and c.func.attr == "tell":
+                    uses_tell = True
+                if isinstance(c, ast.Call) and repo.call_target(f.module, f, c) == "io.BytesIO":
+                    n += 1
+                    ctx.fn(f)
+                    ctx.check("C07.R5", not c.args and not c.keywords, key(f, "prefilled-buffer|" + norm(c)), site(f, c),
+                              "`%s` creates a buffer whose position is 0 although it holds data: this layer uses tell() as the number of buffered bytes and appends with write(), "
+                              "so the next refill overwrites the buffered bytes" % norm(c), "buffer created empty, filled with write()")
+    ctx.floor("C07.R5", "BytesIO constructions in the http layer", n, 10)
+    ctx.check("C07.R5", uses_tell, "tell-as-fill-level", "gunicorn/http: buffers", "the rule's premise (tell() used as fill level) no longer holds", "tell() is the fill level")
 
 
 def r1(ctx):
@@ -187,3 +218,31 @@ def r4(ctx):
     f = repo.func(BODY + ".LengthReader.__init__")
     ctx.check("C07.R4", any(isinstance(s, ast.Assign) and any(tail(t) == "length" for t in s.targets) and isinstance(s.value, ast.Name) and s.value.id == f.params[2] for s in walk_own(f.node)),
               key(f, "stores-length"), site(f), "LengthReader does not store its length", "self.length = length")
+
+
+class _MultiAlias:
+    """evaluate a sibling property's rules under this property's rule id"""
+
+    def __init__(self, ctx, mapping):
+        self._ctx, self._map = ctx, mapping
+
+    def __getattr__(self, n):
+        return getattr(self._ctx, n)
+
+    def _m(self, rid):
+        return self._map.get(rid, rid)
+
+    def ok(self, rid, *a, **k):
+        return self._ctx.ok(self._m(rid), *a, **k)
+
+    def bad(self, rid, *a, **k):
+        return self._ctx.bad(self._m(rid), *a, **k)
+
+    def check(self, rid, cond, *a, **k):
+        return self._ctx.check(self._m(rid), cond, *a, **k)
+
+    def floor(self, rid, *a, **k):
+        return self._ctx.floor(self._m(rid), *a, **k)
+
+    def rule(self, *a, **k):
+        pass
